@@ -147,3 +147,29 @@ Theorem C03_source_wt_constructors : forall k w seq,
        = Val (if negb (len seq =? 0) && (c <=? maxN seq) then select_spec seq c k else None)).
 Proof. exact g_wt_ctors_correct. Qed.
 Print Assumptions C03_source_wt_constructors.
+
+(* ---- the code assignment of the Huffman-shaped binary tree, craft_wm_codes of src/binwt/mod.rs, REGENERATED as written (T5,
+   Gen/FnsCraft2.v: the hash map as the list of its pairs in ANY iteration order, the stable sort by length, the in-place
+   expansion of the fixed-size scratch array, the bit reversal, the table as two lists): whenever the hand model (which takes
+   the sorted list and keeps the live prefix of the scratch array as a growing list) returns a table, the regenerated function
+   returns the same table; hence for every admissible request and every iteration order it returns a compatible table.
+   The converse fails on infeasible length profiles (Kraft sum > 1), where the source reads untouched zeros of the scratch
+   array and returns clashing codes while the hand model faults: Proofs/FnsCraft2Ok.v, g_craft2_infeasible_111. *)
+From QwtModel Require Import Loops Codes CraftP FnsCraft2 FnsCraft2Ok.
+Theorem C03_source_craft2_sim : forall fuel freq sigma tab,
+  len freq < 2 ^ 63 -> sigma + 1 < 2 ^ 64 -> (40 <= fuel)%nat ->
+  craft2 (sort_by_snd freq) sigma = Val tab ->
+  g_craft_wm_codes2 fuel freq sigma = Val (map pc_content tab, map pc_len tab).
+Proof. exact g_craft2_sim. Qed.
+Print Assumptions C03_source_craft2_sim.
+Theorem C03_source_craft2_end_to_end : forall fuel freq sigma,
+  NoDup (map fst freq) -> Forall (fun p => fst p <= sigma /\ 0 < snd p /\ snd p <= 32) freq ->
+  craft_fits 1 (sort_by_snd freq) (N.max (len freq) 2) = true ->
+  len freq < 2 ^ 63 -> sigma + 1 < 2 ^ 64 -> (40 <= fuel)%nat ->
+  exists tab, g_craft_wm_codes2 fuel freq sigma = Val (map pc_content tab, map pc_len tab) /\
+    len tab = sigma + 1 /\
+    (forall sym l, In (sym, l) freq -> exists c, nthN tab sym = Some c /\ pc_len c = l /\ code_wf 1 c = true) /\
+    (forall sym, ~ In sym (map fst freq) -> sym <= sigma -> nthN tab sym = Some pc_zero) /\
+    code_wm_ok 1 tab (map fst (sort_by_snd freq)) = true.
+Proof. exact g_craft2_end_to_end_map. Qed.
+Print Assumptions C03_source_craft2_end_to_end.
